@@ -119,6 +119,20 @@ def gen_fp(rng, n, tier, fields=("Fq", "Fr")):
             L.append("fp_mul %s %s %s %s" % (F, hx(a, bits), hx(b, bits), alm))
             L.append("fp_pred %s %s %s" % (F, hx(a, bits), hx(b, bits)))
             if F == "Fq": L.append("fp_cmp Fq %s %s" % (hx(a, bits), hx(b, bits)))
+        # products and squares whose Montgomery reduction lands exactly on p + s before the final subtraction (s tiny, or around word
+        # boundaries): raw operands with a*b = s*2^bits (mod p) and a*b > s*2^bits give the unreduced value p + s — the tie of the final
+        # compare in every word but the lowest ones, for every back end's fused multiply/square
+        Rm = pow(2, bits, p)
+        for s_ in (0, 1, 2, 3, (1 << 64) - 1, 1 << 64, (1 << 64) + 1, (1 << 128) - 1, 1 << 128, (1 << (bits - 64)) - 1, 1 << (bits - 65)):
+            a = rng.randrange(1 << (bits - 20), p); b = (s_ % p) * Rm % p * pow(a, -1, p) % p
+            L.append("fp_mul %s %s %s %s" % (F, hx(a, bits), hx(b, bits), rng.choice(["n", "a", "b"])))
+            if F == "Fq":
+                t = (s_ % p) * Rm % p
+                if pow(t, (p - 1) // 2, p) in (0, 1):
+                    rt = pow(t, (p + 1) // 4, p)
+                    for a2 in (rt, p - rt):
+                        if 0 < a2 < p and a2 * a2 > s_ * (1 << bits):
+                            L.append("fp_sqr %s %s %s" % (F, hx(a2, bits), rng.choice(["n", "a"]))); L.append("fp_mul %s %s %s ab" % (F, hx(a2, bits), hx(a2, bits)))
         singles = bv + [rng.randrange(p) for _ in range(n)]
         one = pow(2, bits, p)
         singles += [one, p - one, (one * one) % p]
